@@ -13,23 +13,37 @@
 (*                        |e[-2] - e[-1]| < tol                           e[-2] - e[-1] < tol  (an INCREASE stops as well)    *)
 (*   message              "converged in k iterations."                    "tensor_ring_als converged after k iterations."    *)
 (*                                                                                                                          *)
+(* A third family, the CP routines without line search (non_negative_parafac, non_negative_parafac_hals,                    *)
+(* constrained_parafac): an error is recorded iff tol is truthy (constrained_parafac: always), every sweep of a run with   *)
+(* tol prints ("reconstruction error=e" for the first sweep, "iteration k, reconstruction error: e, decrease = d" after),  *)
+(* the rule is looked at from the second sweep on with the comparison cvg_criterion selects, and constrained_parafac has  *)
+(* one more, SILENT, exit between line and rule: the constraint error fell below tol_outer ("feasible").                   *)
+(*                                                                                                                          *)
 (* The verbose log of a real run is a trace of this specification (IterLoopTrace.tla); steps that print nothing are        *)
 (* composed in front of the next printed event by the state functions below.                                              *)
 EXTENDS Naturals, Integers, Sequences, TLC
 
 CONSTANTS MaxLevel, LConfigs
-\* a configuration: [alg, cap (n_iter_max), tol (truthy), cb (callback installed), cbstops (it returns True at some sweep)]
+\* a configuration: [alg, cap (n_iter_max), tol (truthy), cb (callback installed), cbstops (it returns True at some sweep),
+\*                   signed (the rule is d < tol: an increase stops too; otherwise |d| < tol)]
 
 VARIABLE s      \* [c, it, pc, errs, lvl, exit, ncb (callback calls so far)]
 lvars == <<s>>
 
 TuckerFamily == {"tucker", "nn_tucker", "nn_tucker_hals"}
 RingFamily == {"tr_als", "tr_als_sampled"}
-Algs == TuckerFamily \cup RingFamily
+CPFamily == {"nn_parafac", "nn_parafac_hals", "constrained_parafac"}
+Algs == TuckerFamily \cup RingFamily \cup CPFamily
+FamilyOK(c) == /\ (c.alg \in TuckerFamily => ~c.signed /\ ~c.cb)
+               /\ (c.alg \in RingFamily => c.signed)
+               /\ (c.alg \in CPFamily => ~c.cb)
+               /\ (c.cbstops => c.cb)
 
 FirstCheck(a) == IF a \in TuckerFamily THEN 2 ELSE 1        \* first iteration index at which the rule is looked at
-RecordOn(c) == c.alg \in TuckerFamily \/ c.tol \/ c.cb       \* an error is computed and recorded for every sweep
-PrintDue(x) == x.c.alg \in RingFamily \/ x.it >= 2           \* (verbose runs) this sweep prints its line
+RecordOn(c) == c.alg \in TuckerFamily \/ c.alg = "constrained_parafac" \/ c.tol \/ c.cb     \* an error is recorded for every sweep
+PrintDue(x) == \/ x.c.alg \in RingFamily                     \* (verbose runs) this sweep prints its line
+               \/ x.c.alg \in TuckerFamily /\ x.it >= 2
+               \/ x.c.alg \in CPFamily /\ x.c.tol
 MayRise(a) == a = "tr_als_sampled"                           \* sampled least squares: the error of a sweep may exceed the last one
 LastOf(q) == q[Len(q)]
 
@@ -57,13 +71,17 @@ RuleOn(x) == x.c.tol /\ x.it >= FirstCheck(x.c.alg)
 TolOK(x, conv) == x.pc = "tol" /\ (conv => (RuleOn(x) /\ Len(x.errs) >= 2))
 TolF(x, conv) == IF conv THEN [x EXCEPT !.exit = "converged", !.pc = "done"] ELSE [x EXCEPT !.pc = "top"]
 
+\* constrained_parafac only: the constraint error fell below tol_outer (looked at where the rule is, before it; prints nothing)
+FeasOK(x) == x.pc = "tol" /\ x.c.alg = "constrained_parafac" /\ RuleOn(x)
+FeasF(x) == [x EXCEPT !.exit = "feasible", !.pc = "done"]
+
 CapOK(x) == x.pc = "top" /\ x.it + 1 >= x.c.cap
 CapF(x) == [x EXCEPT !.exit = "cap", !.pc = "done"]
 
 ----------------------------------------------------------------------------
 (* Design model.  Levels stand for error values; a sweep never raises the level unless the algorithm samples; the rule is    *)
-(* "no change" (|d| < tol) for the Tucker family and "no decrease" (d < tol) for the ring family.                          *)
-Rule(x) == IF x.c.alg \in TuckerFamily THEN x.errs[Len(x.errs) - 1] = LastOf(x.errs)
+(* "no change" (|d| < tol) or, for a signed comparison, "no decrease" (d < tol).                                            *)
+Rule(x) == IF ~x.c.signed THEN x.errs[Len(x.errs) - 1] = LastOf(x.errs)
            ELSE LastOf(x.errs) >= x.errs[Len(x.errs) - 1]
 
 Init == \E c \in LConfigs, l \in 0..MaxLevel : s = InitS(c, l)
@@ -77,13 +95,14 @@ Tol == \E conv \in BOOLEAN :
           /\ (RuleOn(s) /\ Len(s.errs) >= 2) => (conv = Rule(s))
           /\ s' = TolF(s, conv)
 CapExit == CapOK(s) /\ s' = CapF(s)
+Feas == FeasOK(s) /\ s' = FeasF(s)
 
-Next == Start \/ Sweep \/ Rec \/ PrintLine \/ Cb \/ Tol \/ CapExit
+Next == Start \/ Sweep \/ Rec \/ PrintLine \/ Cb \/ Tol \/ Feas \/ CapExit
 Spec == Init /\ [][Next]_lvars /\ WF_lvars(Next)
 
 ----------------------------------------------------------------------------
 TypeOK == /\ s.c \in LConfigs /\ s.it \in -1..s.c.cap /\ s.pc \in {"top", "sweep", "rec", "print", "cb", "tol", "done"}
-          /\ s.exit \in {"none", "cap", "converged", "cbstop"} /\ s.lvl \in 0..MaxLevel
+          /\ s.exit \in {"none", "cap", "converged", "cbstop", "feasible"} /\ s.lvl \in 0..MaxLevel
           /\ (s.pc = "done") = (s.exit # "none")
 \* one recorded error per completed sweep (none at all when nothing asks for it)
 LenLaw == Len(s.errs) = IF ~RecordOn(s.c) THEN 0
@@ -95,7 +114,8 @@ ErrsMonotone == MayRise(s.c.alg) \/ \A k \in 1..(Len(s.errs) - 1) : s.errs[k + 1
 ExitLaw == /\ (s.exit = "cap") => s.it + 1 >= s.c.cap
            /\ (s.exit = "cbstop") => (s.c.cb /\ s.c.cbstops)
            /\ (s.exit = "converged") => (s.c.tol /\ s.it >= FirstCheck(s.c.alg) /\ Len(s.errs) >= 2 /\ Rule(s))
-MinSweeps == (s.exit = "converged") => s.it + 1 >= FirstCheck(s.c.alg) + 1
+           /\ (s.exit = "feasible") => (s.c.alg = "constrained_parafac" /\ s.c.tol /\ s.it >= 1)
+MinSweeps == (s.exit \in {"converged", "feasible"}) => s.it + 1 >= FirstCheck(s.c.alg) + 1
 \* the callback sees every completed sweep exactly once, after the pre-loop call
 CbCalls == s.ncb = IF ~s.c.cb THEN 0
                    ELSE IF s.pc \in {"sweep", "rec", "print", "cb"} THEN s.it + 1 ELSE s.it + 2
